@@ -428,6 +428,25 @@ def program(rng, **kw):
             globals_.append(("uniform", "g%d" % b, t_, b))
             used_by_global.append(t_)
             b += 1
+    # struct names as naga_oil writes them for imported items, nested as a member / array element of a host struct: the
+    # Rust struct carries the whole name and every field that mentions it names THAT struct
+    deco = []
+    if rng.random() < 0.15:
+        inner_n = "Material" + rng.choice(["X_naga_oil_mod_XMFRGGX", "X_naga_oil_mod_XNVQXIZLSNFQWYX"])
+        di = Ty("struct", name=inner_n, members=[("albedo", Ty("vec", n=4, s="f32")), ("rough", Ty("scalar", s="f32"))], has_rts=False)
+        do_ = Ty("struct", name="SceneMaterials", members=[("count", Ty("scalar", s="u32")), ("items", Ty("array", elem=di, n=3)), ("fallback", di)], has_rts=False)
+        deco = [di, do_]
+        io_lines.append(g.render_struct(di))
+        io_lines.append(g.render_struct(do_))
+        globals_.append(("storage_ro", "g%d" % b, do_, b))
+        used_by_global.append(do_)
+        b += 1
+    # a push constant of struct type (host-visible like any other module-scope variable)
+    pc_struct = None
+    if rng.random() < 0.15:
+        pc_struct = Ty("struct", name="PushData", members=[("model", Ty("mat", c=4, r=4, s="f32")), ("tint", Ty("vec", n=4, s="f32")), ("frame", Ty("scalar", s="u32"))], has_rts=False)
+        io_lines.append(g.render_struct(pc_struct))
+        used_by_global.append(pc_struct)
     # unused + function-local structs
     extra = []
     if rng.random() < 0.4:
@@ -448,6 +467,8 @@ def program(rng, **kw):
             lines.insert(alias_lines_at, "alias %s = %s;" % (nm, txt[3:] if txt.startswith("io:") else txt))
     if ov_tile:
         lines.append("override tile_count: u32 = 4u;\nvar<workgroup> tiles: array<Tile, tile_count>;")
+    if pc_struct is not None:
+        lines.append("var<push_constant> push_data: PushData;")
     for sp, n, t, bi in globals_:
         q = {"uniform": "@group(0) @binding(%d) var<uniform> " % bi, "storage_ro": "@group(0) @binding(%d) var<storage, read> " % bi,
              "storage_rw": "@group(0) @binding(%d) var<storage, read_write> " % bi, "private": "var<private> ", "workgroup": "var<workgroup> "}[sp]
@@ -516,7 +537,7 @@ def program(rng, **kw):
         all_structs["DrawIds"] = ids_struct
     if bonly:
         all_structs["BufOnly"] = bonly
-    for t_ in styled:
+    for t_ in styled + deco + ([pc_struct] if pc_struct is not None else []):
         all_structs[t_.name] = t_
     emitted = set(host)
     if nentry >= 1:
@@ -538,7 +559,8 @@ def program(rng, **kw):
         + [s.name for s in vin] \
         + (["Inter"] if inter else []) + (["DrawIds"] if ids_struct else []) + (["Both"] if shared_host_vertex else []) + (["FOut"] if fout else []) \
         + (["WrapsOut"] if "WrapsOut" in host else []) \
-        + (["LikeFOut"] if vlike is not None else []) + (["BufOnly"] if bonly else []) + [t_.name for t_ in styled]
+        + (["LikeFOut"] if vlike is not None else []) + (["BufOnly"] if bonly else []) + [t_.name for t_ in styled] \
+        + [t_.name for t_ in deco] + (["PushData"] if pc_struct is not None else [])
     if fout:
         all_structs["FOut"] = fout
     if "WrapsOut" in host:
